@@ -1,4 +1,5 @@
 import St4sd.Lemmas.C02f
+import St4sd.Model.CtrlEngine
 /-!
 # C02 — Components reach the final state the documented rules prescribe, whatever the event order
 
@@ -511,5 +512,39 @@ example : quiescent wfRep (run wfRep opsRepA) = true ∧
 example : quiescent wfRep (run wfRep opsRepB) = true ∧
     (List.range 2).map (fun c => ((run wfRep opsRepB).comp c).ctrl) = [some .shutdown, some .shutdown] := by
   decide +kernel
+
+/-! ## F. The exit reason of an execution is the one the engine reports (`St4sd/Model/CtrlEngine.lean`)
+
+Parts A–E take the exit reason of every task execution as given (`CompDef.script`).  The reason reaches
+the controller through `Engine.exitReason()`; it is computed from `self.process` and
+`self._exitReason`, which survive from one execution to the next. -/
+
+/-- Whatever state the previous executions left the engine in (stale `process`, stale `_exitReason`),
+the reason reported after an execution is the reason of THAT execution: the Task's own exit reason
+when the launch produced a Task, `SubmissionFailed` when the task generator raised a launch error,
+`UnknownIssue` when it raised anything else. -/
+theorem engine_reports_reason_of_this_execution (e : EngS) (l : Launch) :
+    (e.execute l).exit = some l.reason := by
+  cases l <;> rfl
+
+/-- So the sequence of reasons a component's engine reports over its executions (with `restart`
+between them) is exactly the sequence of the executions' reasons: the controller model's `script`. -/
+theorem engine_reported_eq_script (e : EngS) (ls : List Launch) :
+    e.reported ls = ls.map (fun l => some l.reason) := by
+  induction ls generalizing e with
+  | nil => rfl
+  | cons l ls ih => simp only [EngS.reported, List.map_cons, engine_reports_reason_of_this_execution, ih]
+
+/-- a launch that fails after a restart does not inherit the reason of the execution before it
+(`ResourceExhausted`, then three failed submissions, then success) -/
+example : ({} : EngS).reported [.task .resourceExhausted, .submitError, .submitError, .submitError, .task .success] =
+    [some .resourceExhausted, some .submissionFailed, some .submissionFailed, some .submissionFailed,
+     some .success] := by decide
+
+/-- with those reasons the restart policy spends one restart and three re-submissions: `finished` -/
+example : ownFrom { n := 1, cdef := fun _ => {}, order := [0] } { restartOn := [.resourceExhausted] }
+    [.resourceExhausted, .submissionFailed, .submissionFailed, .submissionFailed, .success] 0 0 = .finished := by
+  decide
+
 
 end St4sd.C02
